@@ -18,7 +18,7 @@ def run_impl(case):
     size = rnd.choice([s for s in (2, 4, 8, 16, 64) if s * gran >= dw])
     depth = size * gran // dw
     writable = rnd.random() < 0.75
-    init = [rnd.getrandbits(dw) for _ in range(depth)] if rnd.random() < 0.7 else []
+    init = [lib.bits(rnd, dw) for _ in range(depth)] if rnd.random() < 0.7 else []
     # the image is "an iterable of initial values": a list, a tuple, or a one-shot iterator / generator
     how = lib.rng_for(case["seed"], case["idx"], 1535).choice(["list", "list", "tuple", "iter", "gen", "map"])
     given = {"list": lambda: list(init), "tuple": lambda: tuple(init), "iter": lambda: iter(init),
@@ -26,7 +26,7 @@ def run_impl(case):
     dut = WishboneSRAM(size=size, data_width=dw, granularity=gran, writable=writable, init=given)
     if rnd.random() < 0.3:
         # the init image may also be (re)assigned through the `init` property after construction
-        init = [rnd.getrandbits(dw) for _ in range(depth)]
+        init = [lib.bits(rnd, dw) for _ in range(depth)]
         dut.init = init
     rnd2 = lib.rng_for(case["seed"], case["idx"], 1525)        # history variations, own stream
     reassigned = 0
@@ -34,11 +34,11 @@ def run_impl(case):
         # further assignments before elaboration: a shorter image (the rest is zero again), and/or
         # an assignment that is refused (bad element) and must leave the previous image in place
         if rnd2.random() < 0.6:
-            init = [rnd2.getrandbits(dw) for _ in range(rnd2.randint(0, depth - 1))]
+            init = [lib.bits(rnd2, dw) for _ in range(rnd2.randint(0, depth - 1))]
             dut.init = init
             reassigned += 1
         if rnd2.random() < 0.6:
-            bad = [rnd2.getrandbits(dw) for _ in range(depth)]
+            bad = [lib.bits(rnd2, dw) for _ in range(depth)]
             bad[rnd2.randrange(depth)] = "x"
             try:
                 dut.init = bad
@@ -50,7 +50,7 @@ def run_impl(case):
         # `init` is the memory's live image: rows patched in place before elaboration are part of it
         for _ in range(rnd2.randint(1, 3)):
             k = rnd2.randrange(depth)
-            init[k] = rnd2.getrandbits(dw)
+            init[k] = lib.bits(rnd2, dw)
             dut.init[k] = init[k]
         reassigned += 1
     mem0 = list(init)
@@ -75,9 +75,9 @@ def run_impl(case):
             if style == "random" or cur is None or hold == 0:
                 cyc, stb = int(rnd.random() < .7), int(rnd.random() < .7)
                 we = rnd.getrandbits(1)
-                adr = (rnd.getrandbits(aw) if aw else 0) % depth     # a word of the memory (the port may be wider than needed)
-                sel = rnd.getrandbits(lanes) if rnd.random() < .6 else (1 << lanes) - 1
-                datw = rnd.getrandbits(dw)
+                adr = (lib.bits(rnd, aw) if aw else 0) % depth     # a word of the memory (the port may be wider than needed)
+                sel = lib.bits(rnd, lanes) if rnd.random() < .6 else (1 << lanes) - 1
+                datw = lib.bits(rnd, dw)
                 if style == "transfers":
                     cyc = stb = int(rnd.random() < .8)
                     if rnd.random() < .1:
@@ -87,8 +87,8 @@ def run_impl(case):
             else:
                 cyc, stb, we, adr, sel, datw = cur
                 if rnd.random() < .3:                  # change data while held (must not matter after the request cycle)
-                    datw = rnd.getrandbits(dw)
-                    sel = rnd.getrandbits(lanes)
+                    datw = lib.bits(rnd, dw)
+                    sel = lib.bits(rnd, lanes)
             hold = max(0, hold - 1)
             ctx.set(bus.cyc, cyc); ctx.set(bus.stb, stb); ctx.set(bus.we, we)
             ctx.set(bus.adr, adr); ctx.set(bus.sel, sel); ctx.set(bus.dat_w, datw)
